@@ -4,7 +4,7 @@ from core import Case
 from . import wiregen as W
 
 ID = "C08"
-SPEC_IS_ORACLE = lambda c: c.cmd == "BKDR"
+SPEC_IS_ORACLE = lambda c: c.cmd in ("BKDR", "BKDC")
 THEOREMS = [
     "Portus.C08.yields_function_of_datagrams", "Portus.C08.stale_bytes_irrelevant",
     "Portus.C08.yields_from_any_state", "Portus.C08.wellformed_datagrams_yield_messages",
@@ -39,6 +39,11 @@ def gen_script(rng, maxd):
     for _ in range(nd):
         k = rng.randrange(1, 5)
         msgs = [W.rand_valid(rng)[1] for _ in range(k)]
+        # messages of types the CCP side does not interpret, of ANY length (odd ones too), between the others
+        for j in range(len(msgs)):
+            if rng.random() < 0.15:
+                L = rng.choice([8, 9, 10, 11, 12, 13, 15, 17, 21, 33, rng.randrange(8, 60)])
+                msgs.insert(j, struct.pack("<HHI", rng.choice([2, 3, 4, 6, 7, 0x23, 255]), L, rng.getrandbits(32)) + bytes(rng.getrandbits(8) for _ in range(L - 8)))
         dgrams.append(b"".join(msgs)[:1024] if rng.random() < 0.95 else b"".join(msgs))
     if sizes_desc:
         dgrams.sort(key=len, reverse=True)
@@ -111,6 +116,24 @@ def gen(ctx):
         for _ in range(k):
             items.insert(rng.randrange(len(items) + 1), "X")
         yield Case("BKDR", "F:%s %s" % (rng.choice(["00", "aa", "ff"]), " ".join(items)), tags=("pause-resume",))
+    # the same loop over the REAL in-process channel transport, with datagrams that fill the 1024-byte receive buffer to the last
+    # byte (and one or a few more: those the transport refuses, and the traffic after them is unaffected)
+    small = W.enc_measure(4, 2, [8, 9])
+    for L in (512, 1000, 1008, 1016, 1020, 1021, 1022, 1023, 1024, 1025, 1026, 1028, 1032, 2048, 4096):
+        if L % 8 == 0:
+            big = W.enc_measure(7, 1, list(range((L - 16) // 8)))
+        elif L % 4 == 0:
+            big = W.enc_ready(3) + W.enc_measure(7, 1, list(range((L - 12 - 16) // 8)))
+        else:
+            big = struct.pack("<HHI", 0x23, L, 1) + bytes(L - 8)
+        assert len(big) == L
+        for fill in ("00", "ff"):
+            yield Case("BKDC", "F:%s 0:%s 0:%s 0:%s" % (fill, W.hx(small), W.hx(big), W.hx(small + W.enc_ready(5))), tags=("chan-full-buffer",))
+            yield Case("BKDC", "F:%s 0:%s 0:%s 0:%s" % (fill, W.hx(big), W.hx(big), W.hx(small)), tags=("chan-full-buffer",))
+    for _ in range(2000 if ctx.thorough else 200):
+        items = [("0:" + it.split(":", 1)[1]) for it in gen_script(rng, maxd) if ":" in it and not it.endswith(":-")]
+        if items:
+            yield Case("BKDC", "F:%s %s" % (rng.choice(["00", "aa"]), " ".join(items)), tags=("chan-script",))
     # every truncation point of a fixed two-datagram scenario (long create, then short tail)
     cr = W.enc_create(1, 2, 3, 4, 5, 6, 7, b"reno")
     ms = W.enc_measure(7, 1, [5])
